@@ -999,6 +999,15 @@ pub fn customs_family(tier: Tier) -> Vec<Member> {
             out.push(Member { family: "customs", coords: format!("debug-sections-among-unknown #{} gap={}", k, gap), wasm: mb.build() });
         }
     }
+    // long section names (the limit for a name is 100 000 bytes)
+    for len in [1000usize, 10_000, 10_001, 65_536, 100_000] {
+        let mut mb = base.clone();
+        let name: String = std::iter::repeat('n').take(len).collect();
+        mb.customs.push((0, "front".to_string(), payload(2, 3)));
+        mb.customs.push((12, name, payload(3, 7)));
+        mb.customs.push((12, "back".to_string(), payload(1, 9)));
+        out.push(Member { family: "customs", coords: format!("section name of {} bytes", len), wasm: mb.build() });
+    }
     // many custom sections (linker output carries dozens): 33, 40, 64 and 100 unknown ones with DWARF
     // sections in front, in the middle and behind
     for total in [33usize, 40, 64, 100] {
@@ -1320,6 +1329,13 @@ pub fn names_family(tier: Tier) -> Vec<Member> {
         for variant in 0..(if sub == 2 { 2 } else { 1 }) {
             out.push(Member { family: "names", coords: format!("stale entry in subsection {} variant {}", sub, variant), wasm: build_names_stale(sub, variant) });
         }
+    }
+    // the (one, complete) name section somewhere else than at the end: in front of everything, of the
+    // function section, of the code section, of the data section
+    for gap in [0usize, 2, 10, 11] {
+        let mut mb = names_base(0);
+        mb.customs.push((gap, "name".into(), names_payload(0, 0x1ff)));
+        out.push(Member { family: "names", coords: format!("complete name section placed at gap {}", gap), wasm: mb.build() });
     }
     // every kind of entity both imported and defined, all of them named
     for (what, src) in [
@@ -2219,6 +2235,40 @@ pub fn minimal_family() -> Vec<Member> {
         ("v128-constants-with-sign-bits", r#"(module (global $g v128 (v128.const i64x2 -2 7)) (global $h (export "h") v128 (v128.const i32x4 0x00010203 0x04050607 0x08090a0b 0x0c0d0e0f))
             (func (export "f") (result v128) (i32.const 8400) (drop) (drop (v128.const i64x2 -2 7)) (drop (v128.const f64x2 -1.5 2.25)) (drop (v128.const i16x8 0 0 0 -4 1 2 3 4))
               (drop (v128.const i8x16 0 0 0 0 0 0 0 0x80 1 2 3 4 5 6 7 8)) (drop (global.get $g)) (v128.const i32x4 1 2 0x80000000 4)))"#),
+        // both kinds of reference-typed locals in one function
+        ("funcref-and-externref-locals-in-one-function", r#"(module (table $t 2 funcref) (table $e 2 externref) (func $x) (elem declare func $x)
+            (func (export "f") (param externref) (local $h externref) (local $f funcref) (local $i i32) (local $f2 funcref) (i32.const 8410) (drop)
+              (local.set $h (local.get 0)) (local.set $f (ref.func $x)) (local.set $f2 (local.get $f)) (local.set $i (i32.const 1))
+              (table.set $e (local.get $i) (local.get $h)) (table.set $t (local.get $i) (local.get $f2))))"#),
+        // a live data segment on the second memory while the first memory is used by nothing
+        ("unused-first-memory-and-live-data-on-the-second", r#"(module (memory $unused 1) (memory $m 1) (data (memory $m) (i32.const 0) "ab")
+            (func (export "f") (result i32) (i32.const 8411) (drop) (i32.load8_u $m (i32.const 0))))"#),
+        ("unused-first-memory-and-passive-data-used-on-the-second", r#"(module (memory $unused 1) (memory $m 1) (data $p "ab")
+            (func (export "f") (i32.const 8412) (drop) (memory.init $m $p (i32.const 0) (i32.const 0) (i32.const 2))))"#),
+        // a reachable table without active segments next to an unreachable table with one
+        ("live-table-without-segments-and-dead-table-with-active-segment", r#"(module (import "env" "g" (global $off i32)) (table $live (export "live") 2 funcref) (table $ext 1 externref) (table $dead 4 funcref)
+            (func $a (i32.const 8413) (drop)) (func $b (call $a)) (elem (table $dead) (global.get $off) func $b)
+            (func (export "f") (result externref) (table.get $ext (i32.const 0))))"#),
+        // expression element segments whose items are global.get of imported funcref globals
+        ("expression-segment-with-global-get-items", r#"(module (type $t (func (result i32))) (import "env" "hook" (global $hook funcref)) (table $tb (export "tb") 4 funcref)
+            (func $a (type $t) (i32.const 8414)) (func $b (type $t) (i32.const 8415))
+            (elem (table $tb) (i32.const 0) funcref (ref.func $a) (global.get $hook) (ref.func $b))
+            (elem $p funcref (global.get $hook) (ref.func $a))
+            (func (export "f") (param i32) (result i32) (table.init $tb $p (i32.const 2) (i32.const 0) (i32.const 2)) (call_indirect $tb (type $t) (local.get 0))))"#),
+        // ifs nested in the then-arm of an if that has a result and a real else
+        ("if-with-result-whose-then-arm-ends-in-an-else-less-if", r#"(module (import "env" "log" (func $log (param i32))) (func (export "f") (param i32 i32) (result i32) (i32.const 8416) (drop)
+            (if (result i32) (local.get 0) (then (if (local.get 1) (then (call $log (i32.const 1)))) (i32.const 10)) (else (call $log (i32.const 2)) (i32.const 20)))))"#),
+        ("if-with-result-whose-then-arm-holds-an-if-with-empty-else-deeper", r#"(module (import "env" "log" (func $log (param i32))) (func (export "f") (param i32 i32) (result i32) (i32.const 8417) (drop)
+            (if (result i32) (local.get 0) (then (block (if (local.get 1) (then (call $log (i32.const 1))) (else))) (i32.const 10)) (else (i32.const 20)))))"#),
+        // a ref.func target first met through the ref.func itself (declared only by a declare segment), the only path to another function
+        ("function-first-reached-through-ref-func", r#"(module (type $t (func (result i32))) (func $leaf (type $t) (i32.const 8418)) (func $target (type $t) (call $leaf)) (elem declare func $target)
+            (table $tb (export "tb") 1 funcref)
+            (func (export "f") (result i32) (table.set $tb (i32.const 0) (ref.func $target)) (call_indirect $tb (type $t) (i32.const 0))))"#),
+        // tail calls next to plain calls
+        ("return-call-and-call", r#"(module (type $t (func (result i32))) (table 1 funcref) (func $a (type $t) (i32.const 8419)) (elem (i32.const 0) func $a)
+            (func $b (export "b") (type $t) (drop (call $a)) (return_call $a)) (func (export "c") (type $t) (drop (call_indirect (type $t) (i32.const 0))) (return_call_indirect (type $t) (i32.const 0))))"#),
+        // br_table without targets (only the default label) carrying a value
+        ("br-table-default-only-with-value", r#"(module (func (export "f") (param i32) (result i32) (i32.const 8420) (drop) (block (result i32) (i32.const 7) (local.get 0) (br_table 0))))"#),
         ("imported-table-named", r#"(module (import "env" "tbl" (table $t 4 funcref)) (table $own 2 funcref) (func $f (export "f") (result i32) (i32.const 8358) (drop) (i32.add (table.size $t) (table.size $own))))"#),
         // two functions whose operator counts in the input order them differently from their counts
         // after a round trip (nops and dead code disappear, an else-less if may gain an `else`)
